@@ -149,14 +149,19 @@ def step (line : String) : String :=
       let es := (xs.zip ys).map fun p => (⟨p.1, p.2⟩ : Elem)
       let st := roiToState r xc yc usePre
       let model := es.map (mask pre st)
-      let nears := es.map (specNear ε r xc yc pre)
+      let dup := hasDup xc || hasDup yc
+      -- elements whose mask entry the exact model does not predict on float-affected paths (ε > 0):
+      -- the boundary band; with duplicated list entries also the elements whose occurrences disagree
+      let nears := es.map fun e => if dup then specAmbiguous ε r xc yc pre e else specNear ε r xc yc pre e
       -- python output: (xcats ycats state mask codes)
+      -- Spec on the plotted positions themselves: the component built with the list as passed plots
+      -- every element at the index of its label in that list (`component.codes` = `plotCoord`)
+      let codes := Sexp.list [codesSexp xc xs, codesSexp yc ys]
       let (pyMask, pyOk) : Option (List Bool) × Bool := match pyout with
-        | .list [_, _, _, m, _] => (toBits? m, true)
+        | .list [_, _, _, m, c] => (toBits? m, c == codes)
         | _ => (none, false)
       -- a category list with duplicates gives a label several positions: the verdict must then be
       -- justified by one of them (`specMaskAny`; = `specMask` on duplicate-free lists)
-      let dup := hasDup xc || hasDup yc
       let specM : List Bool → Bool := fun m =>
         if dup then specMaskAny ε r xc yc pre es m else specMask ε r xc yc pre es m
       -- inside the band (ε > 0) the float code may legitimately differ from the exact model
@@ -165,8 +170,7 @@ def step (line : String) : String :=
             (model.zip (pm.zip nears)).map fun t => if t.2.2 then t.2.1 else t.1
           else model
         | none => model
-      let impl := Sexp.list [ofOptInts xc, ofOptInts yc, stateSexp (ε == 0) st, ofBits implMask,
-        .list [codesSexp xc xs, codesSexp yc ys]]
+      let impl := Sexp.list [ofOptInts xc, ofOptInts yc, stateSexp (ε == 0) st, ofBits implMask, codes]
       let ok := pyOk && match pyMask with
         | some pm => specM pm
         | none => false
